@@ -140,7 +140,7 @@ func genC20Req(t *rapid.T) c20Req {
 	r.Rev = genHostileRev(t, "rev")
 	r.Limit = rapid.SampledFrom([]int64{0, 0, 1, 2, 3, -1, math.MaxInt64, math.MaxInt64 - 1, math.MinInt64, 1 << 62, 1 << 50, 1 << 31}).Draw(t, "limit")
 	if DrawBool(t, 12, "storageFault") {
-		r.StorageFault = rapid.SampledFrom([]string{"iter", "iter", "get", "commit"}).Draw(t, "sfault")
+		r.StorageFault = rapid.SampledFrom([]string{"iter", "next", "next", "get", "commit"}).Draw(t, "sfault")
 	}
 	if r.Kind == "watch" && DrawBool(t, 25, "longRune") {
 		r.Key = genLongRuneKey(t, "keyL")
@@ -454,7 +454,7 @@ func runC20(ci interface{}, st *CaseStats) error {
 		// the engine fails once during this request (a storage error answered with an error is fine; a crash or an
 		// inconsistent metric is not)
 		armed := r.StorageFault
-		if armed == "iter" {
+		if armed == "iter" || armed == "next" {
 			// an unlimited scan answers an iterator error by backing off for seconds (1 s + 3 s): keep iterator faults
 			// to point reads, limited ranges and the reads inside writes
 			unlimitedScan := (r.Kind == "range" && len(r.End) > 0 && (r.Limit <= 0 || r.Limit == math.MaxInt64)) ||
@@ -465,6 +465,14 @@ func runC20(ci interface{}, st *CaseStats) error {
 		}
 		n.shim.OnIter = func(int) Decision {
 			if armed == "iter" {
+				armed = ""
+				return FailNoApply
+			}
+			return Pass
+		}
+		n.shim.OnNext = func(int, int) Decision {
+			// the first step of an iterator fails (the iterator was created fine)
+			if armed == "next" {
 				armed = ""
 				return FailNoApply
 			}
@@ -486,7 +494,7 @@ func runC20(ci interface{}, st *CaseStats) error {
 		}
 		rejected, err := n.issue(r)
 		armed = ""
-		n.shim.OnIter, n.shim.OnGet, n.shim.OnCommit = nil, nil, nil
+		n.shim.OnIter, n.shim.OnGet, n.shim.OnCommit, n.shim.OnNext = nil, nil, nil, nil
 		if r.StorageFault != "" {
 			st.Label("storage-fault:" + r.StorageFault)
 		}
@@ -576,7 +584,7 @@ func probeC20NonUTF8WatchPrefix() (bool, string) {
 
 var specC20 = &Spec{
 	ID:   "C20",
-	Rule: "case = 3..25 hostile requests through the real etcd and native gRPC handler objects on a leader whose metrics client is the real Prometheus client (process-global registry) and whose engine sits behind the storage-metrics wrapper: keys / range ends / values from {empty, ordinary, non-UTF-8, bytes <= '$', NUL, internal-key look-alikes, 300 B..70 KB, '/', the compaction and election record names, random bytes}, revisions from {0, +-1, min/max int64, 1888 (partition magic), near current, +-2^40, random}, limits incl. negative and absurdly large, missing sub-messages, a storage engine that fails once (iterator / get / commit) during 12% of the requests, all 24 unsupported transaction shapes, watch streams scripted with creates (incl. negative = range-stream revisions, arbitrary bounds), cancels of unknown ids and empty messages. After every request a canary (create a fresh key, wait until readable, read back point and range, receive its event on a watch opened before) must pass. Oracle: the handler returns without panic; the metrics recorder saw no panic inside the Prometheus client and no metric name emitted with two different label-name sets; the canary passes; the process stays alive (the driver treats worker death as a violation and attributes it to the case in flight). Non-trivial = the case has a request the node rejected, one it served, and one of the hard kinds (storage fault during the request, a watch or range stream, a revision beyond +-2^39, a key longer than 256 bytes), each followed by a passing canary; distinct = SHA-1 of the case",
+	Rule: "case = 3..25 hostile requests through the real etcd and native gRPC handler objects on a leader whose metrics client is the real Prometheus client (process-global registry) and whose engine sits behind the storage-metrics wrapper: keys / range ends / values from {empty, ordinary, non-UTF-8, bytes <= '$', NUL, internal-key look-alikes, 300 B..70 KB, '/', the compaction and election record names, random bytes}, revisions from {0, +-1, min/max int64, 1888 (partition magic), near current, +-2^40, random}, limits incl. negative and absurdly large, missing sub-messages, a storage engine that fails once (iterator creation / an iterator's step / get / commit) during 12% of the requests, all 24 unsupported transaction shapes, watch streams scripted with creates (incl. negative = range-stream revisions, arbitrary bounds), cancels of unknown ids and empty messages. After every request a canary (create a fresh key, wait until readable, read back point and range, receive its event on a watch opened before) must pass. Oracle: the handler returns without panic; the metrics recorder saw no panic inside the Prometheus client and no metric name emitted with two different label-name sets; the canary passes; the process stays alive (the driver treats worker death as a violation and attributes it to the case in flight). Non-trivial = the case has a request the node rejected, one it served, and one of the hard kinds (storage fault during the request, a watch or range stream, a revision beyond +-2^39, a key longer than 256 bytes), each followed by a passing canary; distinct = SHA-1 of the case",
 	Gen:  genC20,
 	New:  func() interface{} { return &c20Case{} },
 	Run:  runC20,
